@@ -46,7 +46,7 @@ for rel in files:
             continue
         fn = func_at(i)
         if fn is None: continue
-        key = re.sub(r"[\w\-]+/", "", fn)
+        key = re.sub(r"[\w\-]+/", "", fn).replace("message1_1prime.", "message1_1.")
         if key not in decl_funcs and rel != "channels/channels_fsm.go":
             continue
         for pat, rep in OPS:
@@ -74,7 +74,7 @@ if frm:
                 muts.append(dict(r, newline=nl))
 print("mutants:", len(muts), file=sys.stderr)
 
-ENV = dict(os.environ, PYTHONPATH="/verif/engine")
+ENV = dict(os.environ, PYTHONPATH="/verif/engine", GDTV_PRINT_ALL="1")
 def run(m):
     w = tempfile.mkdtemp(prefix="mut-", dir="/tmp")
     try:
@@ -87,7 +87,7 @@ def run(m):
         r = subprocess.run(["bash", "/verif/engine/front.sh", w, js], capture_output=True, text=True, timeout=300)
         if r.returncode != 0 or not os.path.exists(js):
             return dict(m, status="nocompile")
-        short = re.sub(r"[\w\-]+/", "", m["func"])
+        short = re.sub(r"[\w\-]+/", "", m["func"]).replace("message1_1prime.", "message1_1.")
         pats = [short] if m["file"] != "channels/channels_fsm.go" else ["@lemmas", short]
         out = ""
         for pat in pats:
